@@ -37,3 +37,7 @@ Definition Bq (ext : list Z) (drops first : Z) (err : bool) : op20 * obs20 := (B
 Definition mk (proj : list bool) (used : list (Z * Z)) (mapn base : Z) (h : list (op20 * obs20)) : case :=
   {| c_cfg := {| c_proj := proj; c_used := used; c_map := mapn; c_base := base |}; c_hist := h |}.
 Definition crashed : case := mk [] [] (-1) 0 [(BLK [] 0 0, OX)].
+(* a request that was never answered *)
+Definition WqX (s : list Z) (path : Z) (b22 b3 boff : bool) : op20 * obs20 :=
+  (Req (WC {| rq_str := s; rq_path := path; rq22 := b22; rq3 := b3; rqoff := boff |}), OX).
+Definition LqX (l : list Z) : op20 * obs20 := (Req (LABEL l), OX).
